@@ -92,4 +92,4 @@ Definition c04_run (ct : class_table) (A B C : val) (pool : list obj) :=
   ((can_assign ct false A B, can_assign ct true A B, can_assign ct false A C, can_assign ct false A A, can_assign ct true A A),
    (map (member ct A) pool, map (member ct B) pool),
    (has_bare_generic A || has_bare_generic B, has_seq A && has_variadic_tuple B, has_any A || has_any B,
-    has_unsafe_literal B, has_variadic A || has_variadic B, has_newtype A, refl_ok ct A)).
+    has_unsafe_literal B, has_variadic A || has_variadic B, has_newtype A, refl_ok ct A, strict_f ct big A B)).
